@@ -118,6 +118,56 @@ def gen_lossy(rng, name):
     return cs, first_late
 
 
+def gen_late_early(rng, name):
+    """ONE import batch that is not chronological inside: [late.pcap, early.pcap] while snapshots exist.  early.pcap holds
+    packets older than the newest snapshot that continue flows which were already over (> 5 min idle) at that snapshot
+    point, so the snapshot chosen for the batch must not be younger than the OLDEST capture of the batch."""
+    S = 1000000
+    cs = CaptureSet(name)
+    cs.regime = "late-early"
+    convs = []
+
+    def udp(client, server, times):
+        c = c05.Conv(len(convs), "UDP", client, server, [])
+        for k, ts in enumerate(times):
+            d = "c" if k == 0 else rng.choice(["c", "s"])
+            data = c05.rand_payload(rng, rng.choice([1, 2, 5, 30]))
+            c.msgs.append((d, data))
+            c05.pkt(c, d, ts, data=data)
+        convs.append(c)
+    nflow = rng.choice([1, 2, 3])
+    for i in range(nflow):
+        # flows that start in file 0, continue in file 1 (early) and are over long before file 2
+        a, b = ("0a0001%02x" % (i + 1), 4000 + i), ("0a000201", 53)
+        t1 = [rng.randrange(0, 40) * S for _ in range(rng.randrange(1, 4))]
+        t2 = [rng.randrange(60, 280) * S for _ in range(rng.randrange(1, 3))]
+        udp(a, b, sorted(t1) + sorted(t2))
+    for i in range(rng.choice([2, 3, 5])):
+        # traffic of file 2 and file 3 (snapshot points)
+        a, b = ("0a0003%02x" % (i + 1), 5000 + i), ("0a000401", 53)
+        udp(a, b, sorted(rng.randrange(1000, 1140) * S for _ in range(rng.randrange(2, 6))))
+        udp(("0a0005%02x" % (i + 1), 6000 + i), ("0a000601", 53), sorted(rng.randrange(1200, 1300) * S for _ in range(rng.randrange(1, 4))))
+    if rng.random() < 0.5:
+        t = c05.Conv(len(convs), "TCP", ("0a000701", 40000), ("0a000801", 80), c05.gen_msgs(rng, "TCP"), close="fin")
+        c05.render_tcp(rng, t, rng.randrange(60, 200) * S, 1)
+        convs.append(t)
+    cs.convs = convs
+    allp = [p for c in convs for p in c.pkts]
+    allp.sort(key=lambda p: (p["ts"], p["cid"], p["seqno"]))
+    cs.packets = allp
+    cs.files = ["c0.pcap", "c1.pcap", "c2.pcap", "c3.pcap"]
+    cs.assign = [0 if p["ts"] < 50 * S else 1 if p["ts"] < 500 * S else 2 if p["ts"] < 1150 * S else 3 for p in allp]
+    used = sorted(set(cs.assign))
+    if used != [0, 1, 2, 3]:
+        return None, None
+    se = rng.choice([1, 2, 3])
+    runs = [("oneshot", 100000, [(0, [0, 1, 2, 3])]),
+            ("ooo0", se, [(0, [0]), (rng.choice([0, 1]), [2]), (rng.choice([0, 1]), [3, 1])]),
+            ("ooo1", se, [(0, [0, 2]), (0, [3, 1])]),
+            ("ooo2", se, [(0, [0]), (0, [2]), (0, [1, 3])])]
+    return cs, runs
+
+
 def schedules_ooo_snap(rng, cs, tier):
     """out-of-order arrival while snapshots exist (a younger snapshot must not be chosen)"""
     runs = schedules_ooo(rng, cs, tier)
@@ -427,6 +477,10 @@ def main(tier, seed, replay=None):
             cut_files(rng, cs, "contig", nfiles=rng.choice([2, 3, 3, 4]))
             if len(cs.files) > 1:
                 snap_sets.append((cs, schedules_ooo_snap(rng, cs, tier)))
+        for i in range(n_snapreuse):
+            cs, runs = gen_late_early(rng, "e%d" % i)
+            if cs:
+                snap_sets.append((cs, runs))
         for i in range(n_snapreuse):
             # a cut (and a snapshot point) between the last FIN and the trailing ACK of a closed connection
             cs = gen_set(rng, "a%d" % i, "tcp-only")
